@@ -44,7 +44,7 @@ def make_plan(ctx):
     for t, nb, E, M in FT:
         bits = 8 * nb
         L = 64 // nb
-        vals = vf.float_lattice(bits) + class_values(bits, E, M, rng, ctx.q(4 if E == 8 else 32, 1 if E == 8 else 4)) + gamma_values(bits, rng, ctx.q(60, 3000))
+        vals = vf.float_lattice(bits) + class_values(bits, E, M, rng, ctx.q(4 if E == 8 else 32, 1 if E == 8 else 4)) + gamma_values(bits, rng, ctx.q(60, 8000))
         rows = []
         # alone: the value broadcast to every lane
         for v in vals[:: ctx.q(2, 1)]:
@@ -53,7 +53,7 @@ def make_plan(ctx):
         rows += [r[0] for r in vf.rows_from([(v,) for v in vals], nb, (0, 1, L // 2 + 1) if not ctx.quick else (0, 3))]
         mixed = []
         gv = gamma_values(bits, rng, 20)
-        for _ in range(ctx.q(150, 3000)):
+        for _ in range(ctx.q(150, 8000)):
             mixed.append([rng.choice(gv) if rng.random() < 0.6 else rng.choice(vals) for _ in range(L)])
         rows += [vf.hexrow(vf.pack_lanes(r, nb)) for r in mixed]
         for op in UN:
